@@ -150,4 +150,91 @@ theorem stepFallocate_keeps (cfg : Cfg) (hs : cfg.sealed = true) (st : St) (file
           rw [hr] at hk
           cases r <;> exact hk
 
+theorem doOpen_keeps (cfg : Cfg) (hs : cfg.sealed = true) (st : St) (file : Nat) (fl : Flags) :
+    Keeps st.host (doOpen cfg st file fl).st.host := by
+  unfold doOpen
+  cases ht : fl.trunc with
+  | true => simp [hs]; exact Keeps.refl _
+  | false =>
+    simp only [hs, Bool.and_false, Bool.false_eq_true, if_false]
+    have ho := openInode_host cfg st file fl ht
+    rcases hoi : openInode cfg st file fl with ⟨st', r, c⟩
+    rw [hoi] at ho
+    simp only at ho
+    cases r <;> (simp only; rw [ho]; exact Keeps.refl _)
+
+theorem stepOpen_keeps (cfg : Cfg) (hs : cfg.sealed = true) (st : St) (file : Nat) (fl : Flags) :
+    Keeps st.host (stepOpen cfg st file fl).st.host := by
+  unfold stepOpen
+  split
+  · exact Keeps.refl _
+  · exact doOpen_keeps cfg hs st file fl
+
+theorem keeps_upd_new (H : Host) (file v : Nat) (hnone : H.size file = none) :
+    Keeps H { H with size := upd H.size file (some v) } := by
+  intro f n hf
+  by_cases hff : f = file
+  · subst hff; rw [hnone] at hf; cases hf
+  · simp only [upd_other _ _ _ _ hff]; exact hf
+
+theorem stepCreate_keeps (cfg : Cfg) (hs : cfg.sealed = true) (st : St) (file : Nat) (fl : Flags) :
+    Keeps st.host (stepCreate cfg st file fl).st.host := by
+  unfold stepCreate
+  cases hsz : st.host.size file with
+  | none =>
+    simp only
+    split <;> exact keeps_upd_new st.host file 0 hsz
+  | some sz =>
+    simp only
+    split
+    · exact Keeps.refl _
+    · cases ht : fl.trunc with
+      | true => simp [hs]; exact Keeps.refl _
+      | false =>
+        simp only [hs, Bool.and_false, Bool.false_eq_true, if_false]
+        have ho := openInode_host cfg st file fl ht
+        rcases hoi : openInode cfg st file fl with ⟨st', r, c⟩
+        rw [hoi] at ho
+        simp only at ho
+        cases r with
+        | error e => simp only; rw [ho]; exact Keeps.refl _
+        | ok fd => simp only; split <;> (simp only; rw [ho]; exact Keeps.refl _)
+
+theorem stepSetattr_keeps (cfg : Cfg) (hs : cfg.sealed = true) (st : St) (file : Nat) (h : Option Nat)
+    (setSize : Bool) (size : Nat) (setMode : Bool) :
+    Keeps st.host (stepSetattr cfg st file h setSize size setMode).st.host := by
+  unfold stepSetattr
+  split
+  · exact Keeps.refl _
+  · split
+    · exact Keeps.refl _
+    · cases setSize with
+      | true => simp [hs]; exact Keeps.refl _
+      | false => simp; exact Keeps.refl _
+
+theorem stepRelease_keeps (cfg : Cfg) (st : St) (file h : Nat) :
+    Keeps st.host (stepRelease cfg st file h).st.host := by
+  unfold stepRelease
+  split
+  · exact Keeps.refl _
+  · split
+    · split <;> exact Keeps.refl _
+    · exact Keeps.refl _
+
+theorem step_keeps (cfg : Cfg) (hs : cfg.sealed = true) (st : St) (r : Req) :
+    Keeps st.host (step cfg st r).st.host := by
+  cases r with
+  | opn file fl => exact stepOpen_keeps cfg hs st file fl
+  | create file fl => exact stepCreate_keeps cfg hs st file fl
+  | write file h fl len off => exact stepWrite_keeps cfg hs st file h fl len off
+  | setattr file h ss size sm => exact stepSetattr_keeps cfg hs st file h ss size sm
+  | fallocate file h mode off len => exact stepFallocate_keeps cfg hs st file h mode off len
+  | release file h => exact stepRelease_keeps cfg st file h
+
+theorem run_keeps (cfg : Cfg) (hs : cfg.sealed = true) (reqs : List Req) (st : St) :
+    Keeps st.host (run cfg st reqs).host := by
+  induction reqs generalizing st with
+  | nil => exact Keeps.refl _
+  | cons r rs ih => exact Keeps.trans (step_keeps cfg hs st r) (ih _)
+
 end Fbr.Lemmas.PtSeal
